@@ -797,3 +797,34 @@ Fixpoint walk (r : rt_env) (i : ir) {struct i} : outcome unit unit :=
   | IError m _ => walk r m
   | IAssert a inner => do _ <- walk_assert walk r a; walk r inner
   end.
+
+(* ---- the spans a node carries itself (its own span, its super token, its
+   identifier, the names of the binder groups and fields it introduces): used to
+   say that a diagnostic is located at a node of the program ---- *)
+Definition params_spans (ps : list param) : list span := map (fun p => id_span (param_ident p)) ps.
+Definition bind_spans (b : bind) : list span :=
+  match b with MkBind n ps _ => id_span n :: opt_list (fun q => params_spans (fst q)) ps end.
+Definition fname_spans (n : field_name) : list span :=
+  match n with FnIdent i => [id_span i] | FnString _ sp => [sp] | FnExpr _ sp => [sp] end.
+Definition member_spans (m : member) : list span :=
+  match m with
+  | MLocal b => bind_spans b
+  | MAssert _ => []
+  | MField (FValue n _ _ _) => fname_spans n
+  | MField (FFunc n ps _ _ _) => fname_spans n ++ params_spans ps
+  end.
+Definition obj_spans (o : obj_inside) : list span :=
+  match o with
+  | OMembers ms => flat member_spans ms
+  | OComp l1 _ _ _ l2 _ => flat bind_spans (l1 ++ l2)
+  end.
+Definition node_spans (n : expr) : list span :=
+  expr_span n ::
+  match n with
+  | ESuperField _ ssp _ | ESuperIndex _ ssp _ | EInSuper _ _ ssp => [ssp]
+  | EIdent _ i => [id_span i]
+  | ELocal _ bs _ => flat bind_spans bs
+  | EObject _ o | EObjExt _ _ o _ => obj_spans o
+  | EFunc _ ps _ => params_spans ps
+  | _ => []
+  end.
